@@ -24,6 +24,10 @@ pub trait Engine {
     fn rule(&self, profile: &str) -> String;
     fn real_vs_stub(&self) -> Value;
     fn assumptions(&self, profile: &str) -> Vec<String>;
+    /// Is the per-run event-log hash of this tier a pure function of the seed? (determinism canary)
+    fn event_log_is_replayable(&self, _tier: crate::Tier) -> bool {
+        true
+    }
 }
 
 pub struct CheckSpec {
@@ -339,13 +343,13 @@ pub fn run_check(engine: &dyn Engine, spec: &CheckSpec) -> i32 {
     // ---- determinism canary: the first three runs once more, in fresh children; their event-log
     // hashes must repeat (a leak of real entropy / clock / address-space layout into a run would
     // make violations unreplayable, so it is a harness error, not a verdict)
-    {
+    if engine.event_log_is_replayable(spec.tier) {
         let canary: Vec<u64> = jobs.iter().copied().take(3).collect();
         let cfg2 = PoolCfg { workers: canary.len().max(1), timeout: spec.run_timeout, scratch: base.join("canary"), deadline: None };
         let again = pool::run_jobs(&cfg2, &canary, |j| engine.run_seeded(&spec.profile, spec.seed, j, spec.tier));
         for (j, st) in &again {
             if let (JobStatus::Done(b), Some((_, JobStatus::Done(a)))) = (st, results.iter().find(|(k, _)| k == j)) {
-                if a.events_hash != b.events_hash {
+                if a.events_hash != b.events_hash && a.events_hash != 0 && b.events_hash != 0 {
                     harness_errors.push(format!("determinism canary: run {} gave event-log hash {:016x} in the batch and {:016x} when repeated", j, a.events_hash, b.events_hash));
                 }
             }
